@@ -29,7 +29,8 @@ MODEL = "rules"
 BIG = 10 ** 9
 
 RULES = [(23, "KnownOperationTypesRule"), (24, "KnownDirectivesRule"), (25, "UniqueDirectivesPerLocationRule"),
-         (26, "DeferStreamDirectiveLabel"), (28, "DeferStreamDirectiveOnRootField")]
+         (26, "DeferStreamDirectiveLabel"), (28, "DeferStreamDirectiveOnRootField"),
+         (29, "DeferStreamDirectiveOnValidOperationsRule")]
 RULE_NAME = dict(RULES)
 
 ASSUMPTIONS = [
@@ -293,7 +294,10 @@ def root_doc(rng):
 
     def dirs():
         return rng.choice(["", "", "", " @defer", " @stream", " @defer @defer", " @skip(if: true) @defer", " @stream @defer",
-                           ' @defer(label: "x")', " @stream @stream"])
+                           ' @defer(label: "x")', " @stream @stream", " @skip(if: false) @defer", " @include(if: false) @stream",
+                           " @defer(if: false)", " @defer(if: $v)", " @stream(if: true)", " @skip @defer", " @include @defer",
+                           " @skip(if: $v) @stream", " @include(if: true) @defer", " @defer(if: 1)", " @skip(if: false) @include(if: $v) @defer",
+                           ' @stream(label: "l", if: false)', " @defer(if: true)"])
 
     def sels(depth):
         out = []
@@ -351,7 +355,7 @@ def core(ck, tier, model_ok, budget_s=None):
         return
     rule_text = ("for every generated (schema, document): validate(schema, doc, [R]) as a multiset of (rule, node paths) "
                  "= the extracted Valid/RulesDir.v rule, for R in KnownOperationTypes, KnownDirectives, "
-                 "UniqueDirectivesPerLocation, DeferStreamDirectiveLabel, DeferStreamDirectiveOnRootField (Valid/RulesRoot.v), alone and together; plus a directed family for the root-level walk (repeated / cyclic / undefined spreads, nested inline fragments, duplicate fragment definitions on three fixed schemas with / without mutation and subscription types). non-trivial = an error of one of them or a directive in the document")
+                 "UniqueDirectivesPerLocation, DeferStreamDirectiveLabel, DeferStreamDirectiveOnRootField (Valid/RulesRoot.v), DeferStreamDirectiveOnValidOperationsRule (Valid/RulesValidOps.v), alone and together; plus a directed family for the root-level walk (repeated / cyclic / undefined spreads, nested inline fragments, duplicate fragment definitions on three fixed schemas with / without mutation and subscription types). non-trivial = an error of one of them or a directive in the document")
     ck.extra["rulesdir_rule"] = rule_text
     if not ck.rule:
         ck.rule = rule_text
